@@ -3,6 +3,8 @@ Driver commands for C15 (time alignment).
 
   align     <drop|insert> <req> <data>   model of DataLoader.time_align_data
   alignspec <drop|insert> <req> <data>   specification (specAlign)
+  alignseq     <data> <drop|insert> <req> [<drop|insert> <req> ...]   model of several calls on the same dict (alignSeq)
+  alignseqspec <data> <drop|insert> <req> [<drop|insert> <req> ...]   specification applied call by call (specAlignSeq)
   npunique  <times>                      model of np.unique
   npisect   <times> <times>              model of np.intersect1d(a, b, return_indices=True)
 
@@ -70,6 +72,26 @@ def cmdAlign (spec : Bool) (args : List String) : String :=
     | _, _, _ => "bad-args"
   | _ => "bad-args"
 
+def parseCalls : List String → Option (List Call)
+  | [] => some []
+  | m :: r :: rest =>
+    match parseMode m, parseReq r, parseCalls rest with
+    | some m, some r, some cs => some (⟨m, r⟩ :: cs)
+    | _, _, _ => none
+  | _ => none
+
+def cmdAlignSeq (spec : Bool) (args : List String) : String :=
+  match args with
+  | d :: calls =>
+    match parseData d, parseCalls calls with
+    | some d, some cs =>
+      if spec then showData (specAlignSeq cs d)
+      else match alignSeq cs d with
+        | .ok d' => showData d'
+        | .error .indexError => "error:IndexError"
+    | _, _ => "bad-args"
+  | _ => "bad-args"
+
 def cmdNpUnique (args : List String) : String :=
   match args with
   | [a] => match parseTimes a with
@@ -94,6 +116,8 @@ def dispatchAlign (cmd : String) (args : List String) : Option String :=
   match cmd with
   | "align" => some (AlignDrv.cmdAlign false args)
   | "alignspec" => some (AlignDrv.cmdAlign true args)
+  | "alignseq" => some (AlignDrv.cmdAlignSeq false args)
+  | "alignseqspec" => some (AlignDrv.cmdAlignSeq true args)
   | "npunique" => some (AlignDrv.cmdNpUnique args)
   | "npisect" => some (AlignDrv.cmdNpIsect args)
   | _ => none
